@@ -13,7 +13,7 @@ def main(argv):
     plan = runner.build_plan(tier)
     if argv[0] == "find":
         for i, e in enumerate(plan):
-            if e[1] and argv[1] in e[1]:
+            if e[1] and argv[1] in str(e[1]):
                 print(i, e)
         return 0
     for a in argv:
@@ -23,7 +23,7 @@ def main(argv):
         print(i, plan[i], "harness_error" in out and out["harness_error"])
         if "violations" in out:
             print("  counters", out["counters"], "switches", out["stats"]["switches"],
-                  "faults", out["stats"]["faults_fired"], out["stats"]["stack_faults_fired"])
+                  "faults", out["stats"]["faults_fired"], out["stats"]["stack_faults_fired"], "lock_blocks", out["stats"]["lock_blocks"], "probes", out["probes"])
             for v in out["violations"][:5]:
                 print("  VIOL", json.dumps(v)[:500])
             for lst in [out["spec"]["prelude"]] + out["spec"]["tasks"]:
